@@ -44,6 +44,9 @@ EntryToDict(e) == [meta |-> IF e.meta = None THEN {} ELSE MetaToDict(e.meta),
 C20_MetaCarriesAll(m, d) == d = MetaToDict(m)
 C20_MetaLossless(m, back) == \A f \in Carried(m) : back[f] = m[f]
 C20_MetaIdempotent(d, d2) == d = d2
+\* a listing entry written with metadata and parsed back with its hash name: every carried field but the one that
+\* holds the hash itself (the listing stores the hash under "md5", and parsing puts it back there)
+C20_ListingLossless(m, back) == \A f \in Carried(m) \ {"md5"} : back[f] = m[f]
 C20_HashLossless(h, d, back) ==
     /\ d = HashToDict(h)
     /\ d # {} => (back.name = h.name /\ back.value = h.value)
